@@ -146,7 +146,7 @@ def _run(ctx: Ctx) -> None:
             for path in PATHS:
                 stream = path.endswith("stream")
                 meth = ("s_" if stream else "c_" if path.endswith("ctx") else "u_") + code
-                if meth not in server.methods or (path == "sock_shm" and not sig):
+                if meth not in server.methods or (path == "sock_shm" and (not sig or (len(sig) >= 3 and ci % 2))):
                     continue
                 declared = server.methods[meth].params_schema
                 if path == "sock_shm" and any(pa.types.is_dictionary(f.type) for f in declared):
@@ -159,7 +159,7 @@ def _run(ctx: Ctx) -> None:
                 if exp["invoke"] and path in ("sock_shm", "sock_ctx", "http_ctx") and len(sig) > 1:
                     behs = ["ok", BEHS[1 + ci % 5]]
                 for beh in behs:
-                    many = nvar if len(sig) <= 2 else 1        # 3-parameter signatures: one concrete variant per path
+                    many = nvar if len(sig) <= 1 else 1        # >= 2 parameters: one concrete variant per path
                     for vi in range(many if beh == "ok" or not exp["invoke"] else 1):
                         v = 3 * ci + 5 * vi + len(path)
                         conc = A.concretise(case, declared, v)
